@@ -112,7 +112,7 @@ func worldScopeNames(p *path, method string, recv host, args []value) (value, bo
 	}
 	less := func(i, j int) bool { return p.branch(p.strLess(out[i].(Str), out[j].(Str), false)) }
 	swap := func(i, j int) { out[i], out[j] = out[j], out[i] }
-	p.arrange(len(out), less, swap, true)
+	p.arrange(len(out), less, swap, true, nil)
 	// names of one scope are distinct
 	for i := 1; i < len(out); i++ {
 		p.assumeTerm(p.tc.Not(p.equals(out[i-1], out[i])))
